@@ -26,7 +26,7 @@ CLAIM = (
 OUTSIDE = [
     "'rewrites no output' on disk and the 'Ran N job(s)' line of a real rebuild",
     "FileHash.refreshed returning self for an unchanged stat result: C13/O13.4",
-    "rescan_nglobs at startup (glob matches are not in the bounded state)",
+    "the file-system scan behind rescan_nglobs (stub: arbitrary function of pattern and substitutions)",
 ]
 ASSUMPTIONS = C10.ASSUMPTIONS
 
@@ -80,4 +80,25 @@ def o4_1(tier):
     return C09.explore_op(ObResult(), "O04", "update_file_hashes(EXTERNAL)", tier, cone_post, "something outside the cone of the edited file changed", judge_src=JUDGE_CONE, key="O4:cone")
 
 
-OBLIGATIONS = [Ob("O4.1", o4_1, "the cone of an external change is tight", weight=3, timeout={"quick": 2400, "thorough": 7200})]
+def _xh(oid, cond, pre, what, t=600):
+    def fn(tier):
+        import stepup.core.executor as ex
+        import stepup.core.startup as su
+
+        from vf import xh
+        from vf.runner import enc
+
+        res = ObResult()
+        res.bounds = pre
+        res.encoded += [enc(ex.Executor._compute_inp_step_hash), enc(su.rescan_nglobs)]
+        xh.run_condition(res, "C04", oid, "harness.c01", cond, pre, t if tier == "quick" else 3 * t, what=what)
+        res.nontrivial = 1
+        return res
+
+    return fn
+
+
+OBLIGATIONS = [
+    Ob("O4.2", _xh("O4.2", "step_hash_env_is_command_env", "0 <= v_os < 3 and 0 <= v_infra < 3 and 0 <= dep < 2", "the environment value hashed is the value the command receives"), "tracked environment values in the step hash are those of the command's environment"),
+    Ob("O4.3", _xh("O4.3", "rescan_nglobs_stable", "True", "an unchanged file system leaves every glob registration alone"), "glob rescan at startup: unchanged matches change nothing"),
+    Ob("O4.1", o4_1, "the cone of an external change is tight", weight=3, timeout={"quick": 2400, "thorough": 7200})]
